@@ -5,6 +5,7 @@ import (
 	"encoding/hex"
 	"encoding/json"
 	"fmt"
+	"io"
 	"sync/atomic"
 
 	"github.com/dtn7/dtn7-go/pkg/bpv7"
@@ -48,6 +49,18 @@ func c01RoundTrip(spec gen.Spec) (key, desc string, valid bool) {
 	pristine := spec.Build()
 	if d := gen.DiffBundles(pristine, b2); len(d) > 0 {
 		return "C01/roundtrip-field-differs:" + fieldClass(d[0]), fmt.Sprint(d), true
+	}
+	// the same bytes delivered in pieces (one octet, then 7 octets per Read call): a socket does that
+	if len(s1) <= 70000 {
+		for _, chunk := range []int{1, 7} {
+			b3, cerr := bpv7.ParseBundle(&c01ChunkReader{data: s1, n: chunk})
+			if cerr != nil {
+				return "C01/own-encoding-rejected:chunked-read", fmt.Sprintf("the serialiser's output is rejected when it arrives %d octet(s) per Read: %v", chunk, cerr), true
+			}
+			if d := gen.DiffBundles(pristine, b3); len(d) > 0 {
+				return "C01/roundtrip-field-differs:chunked-read:" + fieldClass(d[0]), fmt.Sprint(d), true
+			}
+		}
 	}
 	s2, err := gen.Ser(&b2)
 	if err != nil {
@@ -441,7 +454,20 @@ func runC01(r *ev.Run, thorough bool) int {
 				}
 			}
 		}
-		for _, m := range muts {
+		for mi, m := range muts {
+			if mi%16 == 15 {
+				// the parser carries no state either: after whatever was parsed (and mostly rejected) before, the
+				// original still parses to a bundle that serialises to the original bytes
+				if pb, perr := gen.Parse(enc); perr != nil {
+					sp := core[i]
+					r.Violation("C01/parse-depends-on-earlier-input", "roundtrip", fmt.Sprintf("a valid encoding is rejected after other inputs were parsed: %v", perr), c01Case{Spec: &sp})
+					break
+				} else if again, _ := gen.Ser(&pb); !bytes.Equal(again, enc) && !gen.HasMultiMap(pb) {
+					sp := core[i]
+					r.Violation("C01/parse-depends-on-earlier-input", "roundtrip", "a valid encoding parses to a different bundle after other inputs were parsed", c01Case{Spec: &sp})
+					break
+				}
+			}
 			atomic.AddInt64(&nMut, 1)
 			k, dsc, acc := c01Accepted(m.enc)
 			if acc {
@@ -581,4 +607,26 @@ func (w *c01FailWriter) Write(p []byte) (int, error) {
 	n := w.left
 	w.left = 0
 	return n, fmt.Errorf("scripted write failure")
+}
+
+// c01ChunkReader hands out at most n bytes per Read.
+type c01ChunkReader struct {
+	data []byte
+	n    int
+}
+
+func (c *c01ChunkReader) Read(p []byte) (int, error) {
+	if len(c.data) == 0 {
+		return 0, io.EOF
+	}
+	k := c.n
+	if k > len(p) {
+		k = len(p)
+	}
+	if k > len(c.data) {
+		k = len(c.data)
+	}
+	copy(p, c.data[:k])
+	c.data = c.data[k:]
+	return k, nil
 }
